@@ -20,7 +20,8 @@ RULE = ("1..3 detection rules x 1..2 filters; detection names from {sel, filter,
         "conditions with identifiers, not, them, prefix/suffix patterns; log sources in all subset relations; rule lists by "
         "id / name / any / empty / non-matching; repeated loads (fresh random prefix each time); distinct = distinct "
         "(rules, filters); non-trivial = at least one filter applies to at least one rule"
-        "; rule references by UUID in other spellings; 30% converted through a pipeline that prefixes every field name")
+        "; rule references by UUID in other spellings; 30% converted through a pipeline that prefixes every field name"
+        "; log sources with a definition text; filters sharing a title")
 ASSUMPTIONS = c01.ASSUMPTIONS[:2] + [
     "a rule selector whose pattern starts with '_' may capture the filter's internal names (recorded finding D10b); not generated except in its own sub-stream",
 ]
